@@ -35,6 +35,13 @@ func script(class string, durMs int) string {
 	panic(class)
 }
 
+func limitMs(d time.Duration) int {
+	if d < 0 {
+		return -1
+	}
+	return int(d / time.Millisecond)
+}
+
 func newLoc(limit time.Duration) (*core.Location, *core.Context) {
 	ctx := core.NewContext("verif")
 	ctx.Verbosity = core.NOTHING
@@ -113,8 +120,18 @@ func main() {
 			cases = append(cases, cse{"slow", lim, 60})
 		}
 	}
+	// which limit applies: with a small system default, a location whose own limit is negative has none,
+	// and a location without an own limit gets the default
+	special := []cse{{"slow", -1, 450}, {"slow", 0, 450}, {"value", -1, 0}}
 	for r := 0; r < *reps; r++ {
-		for _, c := range cases {
+		for ci, c := range append(append([]cse{}, cases...), special...) {
+			defaultMs := 60000
+			if ci >= len(cases) {
+				core.SystemParameters.DefaultJavascriptTimeout = 150 * time.Millisecond
+				defaultMs = 150
+			} else {
+				core.SystemParameters.DefaultJavascriptTimeout = 60 * time.Second
+			}
 			src := script(c.class, c.dur)
 			for _, path := range []string{"run", "cond", "action"} {
 				if path != "run" && c.class == "syntax" {
@@ -126,8 +143,8 @@ func main() {
 					}
 					_, err := loc.AddRule(ctx, "r", core.Map(rule))
 					if err != nil {
-						events = append(events, J{"ev": "js", "path": path + "-add", "class": c.class, "limit_ms": int(c.limit / time.Millisecond),
-							"dur_ms": c.dur, "returned": true, "elapsed_ms": 0, "err": true, "val": t.Encode(nil), "node_ok": false, "msg": ""})
+						events = append(events, J{"ev": "js", "path": path + "-add", "class": c.class, "limit_ms": limitMs(c.limit),
+							"dur_ms": c.dur, "returned": true, "elapsed_ms": 0, "err": true, "val": t.Encode(nil), "node_ok": false, "msg": "", "default_ms": defaultMs})
 						continue
 					}
 					// accepted: then it has to fail on its node when an event runs it
@@ -150,9 +167,9 @@ func main() {
 						}
 						return o
 					})
-					events = append(events, J{"ev": "js", "path": path, "class": c.class, "limit_ms": int(c.limit / time.Millisecond),
+					events = append(events, J{"ev": "js", "path": path, "class": c.class, "limit_ms": limitMs(c.limit),
 						"dur_ms": c.dur, "returned": o.returned, "elapsed_ms": int(o.elapsed / time.Millisecond), "err": o.err,
-						"val": t.Encode(nil), "node_ok": !o.err, "msg": o.msg})
+						"val": t.Encode(nil), "node_ok": !o.err, "msg": o.msg, "default_ms": defaultMs})
 					continue
 				}
 				loc, ctx := newLoc(c.limit)
@@ -222,9 +239,33 @@ func main() {
 				if len(o.msg) > 200 {
 					o.msg = o.msg[:200]
 				}
-				events = append(events, J{"ev": "js", "path": path, "class": c.class, "limit_ms": int(c.limit / time.Millisecond),
+				events = append(events, J{"ev": "js", "path": path, "class": c.class, "limit_ms": limitMs(c.limit),
 					"dur_ms": c.dur, "returned": o.returned, "elapsed_ms": int(o.elapsed / time.Millisecond), "err": o.err,
-					"val": t.Encode(v), "node_ok": o.nodeOk, "msg": o.msg})
+					"val": t.Encode(v), "node_ok": o.nodeOk, "msg": o.msg, "default_ms": defaultMs})
+				if path == "cond" && c.class == "throw" {
+					// the same throwing script as the second disjunct of an `or` whose first disjunct succeeds
+					loc2, ctx2 := newLoc(c.limit)
+					rule := J{"when": J{"pattern": J{"x": "?x", "y": "?y"}}, "action": J{"code": "'acted'"},
+						"condition": J{"or": []interface{}{J{"code": "x === 1"}, J{"code": src}}}}
+					if _, err := loc2.AddRule(ctx2, "r", core.Map(rule)); err != nil {
+						panic(err)
+					}
+					o2 := guard(hard, func() outcome {
+						fr, _ := loc2.ProcessEvent(ctx2, core.Map{"x": 1.0, "y": "a"})
+						o := outcome{}
+						if fr == nil || len(fr.Children) != 1 || len(fr.Children[0].Children) != 1 {
+							o.err, o.msg = true, "unexpected work tree"
+							return o
+						}
+						erc := fr.Children[0].Children[0]
+						o.nodeOk = erc.Disposition != nil && erc.Disposition.Msg == "complete"
+						o.err = !o.nodeOk
+						return o
+					})
+					events = append(events, J{"ev": "js", "path": "cond-or", "class": c.class, "limit_ms": limitMs(c.limit),
+						"dur_ms": c.dur, "returned": o2.returned, "elapsed_ms": int(o2.elapsed / time.Millisecond), "err": o2.err,
+						"val": t.Encode(nil), "node_ok": o2.nodeOk, "msg": o2.msg, "default_ms": defaultMs})
+				}
 			}
 		}
 	}
